@@ -117,6 +117,34 @@ func BuildMulti(g string, s []ro.Observable[any]) (ro.Observable[any], error) {
 		return tupleAny(ro.Zip2(s[0], s[1])), nil
 	case "Zip3":
 		return tupleAny(ro.Zip3(s[0], s[1], s[2])), nil
+	case "MergeWith3":
+		return ro.MergeWith3(s[1], s[2], s[3])(s[0]), nil
+	case "MergeWith4":
+		return ro.MergeWith4(s[1], s[2], s[3], s[4])(s[0]), nil
+	case "MergeWith5":
+		return ro.MergeWith5(s[1], s[2], s[3], s[4], s[5])(s[0]), nil
+	case "CombineLatest4":
+		return tupleAny(ro.CombineLatest4(s[0], s[1], s[2], s[3])), nil
+	case "CombineLatest5":
+		return tupleAny(ro.CombineLatest5(s[0], s[1], s[2], s[3], s[4])), nil
+	case "CombineLatestWith2":
+		return tupleAny(ro.CombineLatestWith2[any](s[1], s[2])(s[0])), nil
+	case "CombineLatestWith3":
+		return tupleAny(ro.CombineLatestWith3[any](s[1], s[2], s[3])(s[0])), nil
+	case "CombineLatestWith4":
+		return tupleAny(ro.CombineLatestWith4[any](s[1], s[2], s[3], s[4])(s[0])), nil
+	case "Zip4":
+		return tupleAny(ro.Zip4(s[0], s[1], s[2], s[3])), nil
+	case "Zip5":
+		return tupleAny(ro.Zip5(s[0], s[1], s[2], s[3], s[4])), nil
+	case "Zip6":
+		return tupleAny(ro.Zip6(s[0], s[1], s[2], s[3], s[4], s[5])), nil
+	case "ZipWith3":
+		return tupleAny(ro.ZipWith3[any](s[1], s[2], s[3])(s[0])), nil
+	case "ZipWith4":
+		return tupleAny(ro.ZipWith4[any](s[1], s[2], s[3], s[4])(s[0])), nil
+	case "ZipWith5":
+		return tupleAny(ro.ZipWith5[any](s[1], s[2], s[3], s[4], s[5])(s[0])), nil
 	case "ZipWith2":
 		return tupleAny(ro.ZipWith2[any](s[1], s[2])(s[0])), nil
 	case "ZipWith":
@@ -210,6 +238,12 @@ func init() {
 		switch x := v.(type) {
 		case lo.Tuple3[any, any, any]:
 			return "[" + cat.Canon(x.A) + "," + cat.Canon(x.B) + "," + cat.Canon(x.C) + "]", true
+		case lo.Tuple4[any, any, any, any]:
+			return "[" + cat.Canon(x.A) + "," + cat.Canon(x.B) + "," + cat.Canon(x.C) + "," + cat.Canon(x.D) + "]", true
+		case lo.Tuple5[any, any, any, any, any]:
+			return "[" + cat.Canon(x.A) + "," + cat.Canon(x.B) + "," + cat.Canon(x.C) + "," + cat.Canon(x.D) + "," + cat.Canon(x.E) + "]", true
+		case lo.Tuple6[any, any, any, any, any, any]:
+			return "[" + cat.Canon(x.A) + "," + cat.Canon(x.B) + "," + cat.Canon(x.C) + "," + cat.Canon(x.D) + "," + cat.Canon(x.E) + "," + cat.Canon(x.F) + "]", true
 		}
 		return "", false
 	}
